@@ -66,22 +66,39 @@ func zzSameTokens(got, want []Token) bool {
 
 // zzTrivia builds one trivia item of the chosen kind; its text is WGSL blankspace or a
 // comment by construction (the generator is the definition of §3.2-3.4).
+// zzTriviaShort limits the variable-length parts of a trivia item to at most one byte (used
+// when two items are combined: the product of the full ranges exceeds the path budget).
+var zzTriviaShort bool
+
+func zzLenChoice(id string, n int) int {
+	if zzTriviaShort && n > 2 {
+		n = 2
+	}
+	return zz.Choice(id, n)
+}
+
 func zzTrivia(id string, kind int) string {
 	switch kind {
 	case 0: // one blankspace code point
 		zz.Cell("blankspace")
+		if zzTriviaShort {
+			return zzBlank[3*zz.Choice(id+"blank", 3)] // space, VT, NEL... a spread of the list
+		}
 		return zzBlank[zz.Choice(id+"blank", len(zzBlank))]
 	case 1: // line-ending comment with 0..2 arbitrary bytes, ended by any line break
 		zz.Cell("line-comment")
-		n := zz.Choice(id+"lcLen", 3)
+		n := zzLenChoice(id+"lcLen", 3)
+		if zzTriviaShort {
+			return "//" + zzLineCommentText(id+"lc", n) + zzLineBreaks[2*zz.Choice(id+"lb", 3)]
+		}
 		return "//" + zzLineCommentText(id+"lc", n) + zzLineBreaks[zz.Choice(id+"lb", len(zzLineBreaks))]
 	case 2: // block comment with 0..3 arbitrary bytes
 		zz.Cell("block-comment")
-		n := zz.Choice(id+"bcLen", 4)
+		n := zzLenChoice(id+"bcLen", 4)
 		return "/*" + zzBlockText(id+"bc", n, '*') + "*/"
 	default: // nested block comment: /* t1 /* t2 */ t3 */
 		zz.Cell("nested-block-comment")
-		n1, n2, n3 := zz.Choice(id+"n1", 2), zz.Choice(id+"n2", 3), zz.Choice(id+"n3", 2)
+		n1, n2, n3 := zzLenChoice(id+"n1", 2), zzLenChoice(id+"n2", 3), zzLenChoice(id+"n3", 2)
 		return "/*" + zzBlockText(id+"t1", n1, '/') + "/*" + zzBlockText(id+"t2", n2, '*') + "*/" + zzBlockText(id+"t3", n3, '*') + "*/"
 	}
 }
@@ -107,10 +124,12 @@ func ZZ_C19_trivia_invariance() {
 	zz.Reach("end")
 }
 
-// U1b (thorough): two consecutive trivia items.
+// U1b (thorough): two consecutive trivia items (4 x 4 token texts, variable-length parts of
+// each item limited to 0..1 bytes, three blankspace / line-break code points per item).
 func ZZ_C19_trivia_pairs_T() {
-	a := zzSides[zz.Choice("A", 6)]
-	b := zzSides[zz.Choice("B", 6)]
+	zzTriviaShort = true
+	a := zzSides[zz.Choice("A", 4)]
+	b := zzSides[zz.Choice("B", 4)]
 	k1 := zz.Choice("kind1", 4)
 	zz.Assume(!(a == "/" && k1 != 0))
 	g := zzTrivia("g", k1) + zzTrivia("h", zz.Choice("kind2", 4))
